@@ -1,12 +1,14 @@
 //! Per-property drivers.
 use crate::core::Driver;
 
+pub mod c15;
 pub mod toy;
 
-pub const ALL: &[&str] = &["TOY"];
+pub const ALL: &[&str] = &["C15", "TOY"];
 
 pub fn registry(id: &str) -> Box<dyn Driver> {
     match id {
+        "C15" => c15::driver(),
         "TOY" => toy::driver(),
         _ => panic!("MACHINERY: unknown property id {id}"),
     }
